@@ -18,7 +18,7 @@ Standard checks that can cover a whole row or data set.
 import copy
 import tokenize
 
-from cutplace import _tools, errors, fields
+from cutplace import _compat, _tools, errors, fields
 from cutplace._tools import generated_tokens
 
 
@@ -149,6 +149,20 @@ class AbstractCheck(object):
         return self._field_names
 
 
+def _rule_tokens(rule, location):
+    """
+    The Python tokens ``rule`` consists of.
+
+    :raises cutplace.errors.InterfaceError: if the tokenizer cannot process ``rule``
+    """
+    try:
+        return iter(list(generated_tokens(rule)))
+    except (tokenize.TokenError, SyntaxError) as error:
+        raise errors.InterfaceError(
+            "rule must be a sequence of valid tokens: %s (error: %s)" % (_compat.text_repr(rule), error), location
+        )
+
+
 class IsUniqueCheck(AbstractCheck):
     """
     Check to ensure that all rows are unique concerning certain key fields.
@@ -162,7 +176,7 @@ class IsUniqueCheck(AbstractCheck):
         self.reset()
 
         # Extract field names to check from rule.
-        toky = generated_tokens(rule)
+        toky = _rule_tokens(rule, self.location_of_rule)
         after_comma = True
         next_token = next(toky)
         unique_field_names = set()
@@ -225,7 +239,7 @@ class DistinctCountCheck(AbstractCheck):
     def __init__(self, description, rule, available_field_names, location=None):
         super().__init__(description, rule, available_field_names, location)
 
-        tokens = generated_tokens(rule)
+        tokens = _rule_tokens(rule, self.location_of_rule)
         first_token = next(tokens)
 
         # Obtain and validate field to count.
